@@ -27,6 +27,8 @@ type Emit func(format string, a ...interface{})
 var (
 	gens  = map[string]func(r *rand.Rand, tier string, emit Emit){}
 	execs = map[string]func(args []string, lines [][]string) []string{}
+	// extra sub-commands (harness <name> args…), e.g. "conc" for the C05 race run
+	cmds = map[string]func(args []string){}
 )
 
 func hx(s string) string {
@@ -110,6 +112,10 @@ func main() {
 	case "oracle":
 		answerOracle(os.Args[2], os.Args[3])
 	default:
+		if c, ok := cmds[os.Args[1]]; ok {
+			c(os.Args[2:])
+			return
+		}
 		fatal("unknown command", os.Args[1])
 	}
 }
